@@ -1915,7 +1915,12 @@ def minimum_angular_separation(
     # Iterate to find the solution
     n = 0.0
     dn = 999999.9
+    num_iter = 0
     while abs(dn) > 0.000001:
+        # The iteration only converges if the bodies do have a conjunction
+        if num_iter >= 1000:
+            raise ValueError("Too many iterations: Probably no minimum exists")
+        num_iter += 1
         uu = interpol(n, u[1], u[2], u[3])
         vv = interpol(n, v[1], v[2], v[3])
         up = u_prime(n, u[1], u[2], u[3])
